@@ -29,7 +29,11 @@ var woKinds = []string{"same-day", "next-day", "next-month", "other-iface"}
 func woHistory(code, n int) []fixture.Block {
 	// second half of the case space: the second write-out carries no flows at all (an idle
 	// interval: no column file is touched, only the metadata is rewritten)
-	emptySecond := (code/woHistories(n))%2 == 1
+	variant := (code / woHistories(n)) % 3
+	emptySecond := variant == 1
+	// third part of the case space (thorough, 4 write-outs): the LAST write-out is the idle one, so that it
+	// follows a write-out that may have been interrupted on a day that already carries a suffix
+	emptyLast := variant == 2 && n >= 4
 	code %= woHistories(n)
 	var out []fixture.Block
 	iface, ts := "eth0", tA1
@@ -60,14 +64,18 @@ func woHistory(code, n int) []fixture.Block {
 			}
 		}
 		rs := recsets[i%len(recsets)]
-		if emptySecond && i == 1 {
+		if (emptySecond && i == 1) || (emptyLast && i == n-1) {
 			rs = nil
 		}
 		scaled := make([]fixture.Rec, len(rs))
 		for j, r := range rs {
 			scaled[j] = scale(r, uint64(i+1))
 		}
-		out = append(out, fixture.Block{Iface: iface, TS: ts, Recs: scaled, Drops: uint64(i + 1)})
+		drops := uint64(i + 1)
+		if (emptySecond && i == 1) || (emptyLast && i == n-1) {
+			drops = 0 // an interval in which nothing at all happened: the day's totals (and its directory suffix) do not change
+		}
+		out = append(out, fixture.Block{Iface: iface, TS: ts, Recs: scaled, Drops: drops})
 	}
 	return out
 }
@@ -212,19 +220,30 @@ func sameDayCount(bs []fixture.Block, b fixture.Block) int {
 	return n
 }
 
+// c04QuickLong: codes of the 4-write-out histories of the quick tier (variant 2 = idle last write-out).
+var c04QuickLong = []int{2*64 + 1, 2*64 + 0, 2*64 + 3}
+
 func c04Run(x *explore.Ctx) {
 	gpfile.VerifResetPools()
 	n := 3
 	if x.Thorough() {
 		n = 4
 	}
-	hist := woHistory(x.Case, n)
+	code := x.Case
+	if !x.Thorough() && x.Case >= 32 {
+		// three histories of FOUR write-outs in the quick tier: the last one idle (no flows, no drops) after
+		// {next day, same day} / {same day, same day} / {other interface, same day}: a kill can hit a day that
+		// already carries a suffix and be followed by a write-out that does not change the day's totals
+		n, code = 4, c04QuickLong[x.Case-32]
+	}
+	hist := woHistory(code, n)
 	dbPath := fixture.NewDir()
 	defer os.RemoveAll(dbPath)
 	ctl := &fsCtl{x: x, mode: fsCrash, root: dbPath, partial: x.Thorough()}
 	x.Logf("history: %s", woDescribe(hist))
 
 	var committed []fixture.Block
+	var lagging *fixture.Block // write-out after whose kill the day's directory suffix lags (known finding), not yet repaired
 	crashes := 0
 	for i, b := range hist {
 		ctl.phase, ctl.nstep, ctl.hit = fmt.Sprintf("w%d", i), 0, ""
@@ -238,7 +257,10 @@ func c04Run(x *explore.Ctx) {
 				return
 			}
 			committed = append(committed, b)
-			if crashes > 0 {
+			if lagging != nil && lagging.Iface == b.Iface && gpfile.DirTimestamp(lagging.TS) == gpfile.DirTimestamp(b.TS) {
+				lagging = nil // this write-out went to the day with the lagging suffix: from now on everything must agree again
+			}
+			if crashes > 0 && lagging == nil {
 				// the first write-outs after a crash must leave a consistent database as well
 				if d := dbMatches(dbPath, committed); d != "" {
 					x.Fail("after-recovery:"+stepClass(ctl.hitOp), "history [%s], %s: after the following write-out %d the database is wrong: %s", woDescribe(hist), ctl.lastHit(), i, d)
@@ -262,11 +284,25 @@ func c04Run(x *explore.Ctx) {
 			want = append(append([]fixture.Block{}, committed...), b)
 		}
 		if d := dbMatches(dbPath, want, b.Iface); d != "" {
+			// The recorded finding (directory suffix lags behind after a kill between the two renames) lasts "until
+			// the next write-out to that day". One branch reports it here; the other goes on, so that the history
+			// behind it - in particular the write-out that has to repair the suffix - is explored as well.
+			if stepClass(ctl.hitOp) == "rename:daydir->daydir" && dClass(d) == "listing-disagrees" && i < len(hist)-1 &&
+				x.Choose(2, fmt.Sprintf("suffix lag after w%d: report | continue", i)) == 1 {
+				lagging = &hist[i]
+				ctl.saveHit()
+				committed = want
+				continue
+			}
 			x.Fail("inconsistent:"+stepClass(ctl.hitOp)+":"+dClass(d), "history [%s], write-out %d %s (in-flight block visible: %v): %s", woDescribe(hist), i, ctl.hit, vis, d)
 			return
 		}
 		ctl.saveHit()
 		committed = want
+	}
+	if lagging != nil {
+		x.Obs("suffix still lagging at the end")
+		return
 	}
 	if d := dbMatches(dbPath, committed); d != "" {
 		x.Fail("final:"+stepClass(ctl.hitOp), "history [%s], %s: final database is wrong: %s", woDescribe(hist), ctl.lastHit(), d)
@@ -308,12 +344,12 @@ var _ = types.Counters{}
 func init() {
 	register("C04", &explore.Scenario{
 		ID: "C04", Name: "kill at every mutating file-system step of every write-out", Level: "fault_enumeration",
-		Rule: "cases = all histories of 3 (thorough 4) write-outs where each next write-out is {next block same day, first block next day, first day of next month, other interface}: 16 (64) histories, each also with a second write-out that carries no flows; the real DBWriter.Write runs over the vos shim; before EVERY mutating step (mkdir, open-create, write, chmod, rename, unlink) of every write-out one deviation = the process is killed there (thorough: also inside every write after 1..n-1 bytes for writes <=64 B, else after 1, n/2, n-1 bytes; and a second kill in a later write-out, bound 2). After the kill the tree is inspected without the shim: the in-flight block is visible or not (atomic), the query engine (raw+time) and ReadMetadata succeed and equal the reference for exactly the visible blocks; then the remaining write-outs run and are checked again. non-trivial = every execution with a kill, distinct by (history, write-out, step)",
+		Rule: "cases = all histories of 3 (thorough 4) write-outs where each next write-out is {next block same day, first block next day, first day of next month, other interface}: 16 (64) histories, each also with a second write-out that carries neither flows nor drops (the day's totals and directory suffix stay as they are; thorough: also with such a LAST write-out; quick: three histories of 4 write-outs with an idle last one); the real DBWriter.Write runs over the vos shim; before EVERY mutating step (mkdir, open-create, write, chmod, rename, unlink) of every write-out one deviation = the process is killed there (thorough: also inside every write after 1..n-1 bytes for writes <=64 B, else after 1, n/2, n-1 bytes; and a second kill in a later write-out, bound 2). After the kill the tree is inspected without the shim: the in-flight block is visible or not (atomic), the query engine (raw+time) and ReadMetadata succeed and equal the reference for exactly the visible blocks; then the remaining write-outs run and are checked again (after the recorded suffix-lag finding one branch reports it, another continues: the next write-out to that day must repair the suffix). non-trivial = every execution with a kill, distinct by (history, write-out, step)",
 		Cases: func(t string) int {
 			if t == "thorough" {
-				return 128
+				return 192
 			}
-			return 32
+			return 32 + len(c04QuickLong)
 		},
 		Bound: func(t string) int {
 			if t == "thorough" {
